@@ -307,6 +307,17 @@ fn parent(prop: &str, tier: Tier) -> i32 {
                     let st2 = wait_with_deadline(&mut again, Instant::now() + Duration::from_secs(120));
                     use std::os::unix::process::ExitStatusExt;
                     match st2 {
+                        Some(s2) if s2.code() == Some(EXIT_HANG) => {
+                            let sig = format!("hang:{}", body["sub"].as_str().unwrap_or(""));
+                            if let Some(k) = known.matches(prop, &sig) {
+                                known_lines.insert(sig, k.what.clone());
+                            } else {
+                                violations.push((sig, p.to_string_lossy().into_owned()));
+                            }
+                        }
+                        Some(s2) if s2.code() == Some(EXIT_BLOCKED) => {
+                            inconclusive.push(format!("lane {lane}: a call blocked past its watchdog (low CPU)"));
+                        }
                         Some(s2) if s2.signal().is_some() || s2.code() == Some(101) || s2.code() == Some(134) => {
                             let sig = format!("abort:{}:{:?}/{:?}", body["sub"].as_str().unwrap_or(""), s2.signal(), s2.code());
                             if let Some(k) = known.matches(prop, &sig) {
